@@ -13,6 +13,7 @@
 //!                     self-evaluating `d'` with `(equal? d d')`
 //!   eval <hex>        run the program text on a fresh-enough engine: ok <datum of last value> | err <first line> | panic ..
 //!   unitable          the two escape classifications of Rust's `{:?}` used by the writer
+//!   intlit            whether IntLiteral::from_str_radix accepts `_` between digits
 //! stdout: one line per request (see the functions below), flushed per line.
 //!   A panic of the code under test is reported as `panic <message>` (a violation of C12 and C07).
 //!
@@ -661,6 +662,13 @@ fn main() {
     let args: Vec<String> = std::env::args().collect();
     if args.get(1).map(|s| s.as_str()) == Some("unitable") {
         unitable();
+        return;
+    }
+    if args.get(1).map(|s| s.as_str()) == Some("intlit") {
+        // does the integer parser of the tree take `_` between digits (the BigInt fallback of
+        // IntLiteral::from_str_radix)?  The translator turns the answer into `Gen.intUnderscoreFallback`.
+        let lenient = steel_parser::tokens::IntLiteral::from_str_radix("1_0", 10).is_ok();
+        println!("underscore {}", if lenient { 1 } else { 0 });
         return;
     }
     let stdin = std::io::stdin();
